@@ -380,9 +380,11 @@ Proof.
               refines c true st (upd st1 userid (fun x => x <| u_in := (u_in x) <| p_len := 0 |> <| p_offset := 0 |> |>), o)).
   { intros st1 o H. apply refines_then_frame; [exact H|]. apply uframe_qkey. reflexivity. }
   destruct (unz raw) as [ip|]; [|apply K, refines_nil].
-  destruct (find_user_by_ip st (le32_at ip 20) now) as [t|] eqn:Hf.
+  destruct (if (24 <=? length ip)%nat then find_user_by_ip st (le32_at ip 20) now else None) as [t|] eqn:Hf.
   2:{ apply K. apply refines_ctl. constructor; [exact I|constructor]. }
-  apply find_user_by_ip_range in Hf.
+  assert (Hf' : (t < length st)%nat).
+  { destruct (24 <=? length ip)%nat; [|discriminate]. apply find_user_by_ip_range in Hf. exact Hf. }
+  clear Hf. rename Hf' into Hf.
   destruct (u_conn (getu st t)).
   { apply K. apply refines_ctl. constructor; [exact I|constructor]. }
   destruct (p_len (u_out (getu st t)) =? 0).
@@ -595,6 +597,7 @@ Lemma tunnel_tun_refines zc c st now inpkt : refines c true st (tunnel_tun zc st
 Proof.
   unfold tunnel_tun. destruct inpkt as [|b rest]; [apply refines_nil|].
   set (pk := b :: rest). clearbody pk.
+  destruct (length pk <? 24)%nat; [apply refines_nil|].
   destruct (find_user_by_ip st (le32_at pk 20) now) as [t|] eqn:Hf; [|apply refines_nil].
   apply find_user_by_ip_range in Hf. cbv zeta.
   destruct (u_conn (getu st t)).
